@@ -319,3 +319,6 @@ def h_illum(ctx):
     k = Num.of(ctx.call(MOON + ".illuminated_fraction_disk", e))
     ctx.vc("0 <= illuminated fraction <= 1", and_(k >= 0, k <= 1))
     ctx.vc("caller's Epoch unchanged", ctx.field(e, "_jde") == q)
+
+
+P.frame_check()
